@@ -47,7 +47,7 @@ SPLIT = {"use_g"}                # events whose output name is part of the findi
 
 TIERS = {
     "quick": dict(set_sizes=[2], hist_depth=2, tree=False, bfs_depth=3, bfs_cap=None, seed_chunk=7),
-    "thorough": dict(set_sizes=[2, 3], hist_depth=2, tree=True, bfs_depth=8, bfs_cap=1200, seed_chunk=7),
+    "thorough": dict(set_sizes=[2, 3], hist_depth=2, tree=True, bfs_depth=8, bfs_cap=800, seed_chunk=7),
 }
 
 RULE = ("events = 19 public-API operations on shared module-level decorator/pass/rule objects (each builds its "
